@@ -9,7 +9,7 @@
 From Coq Require Import ZArith List Bool.
 From KV Require Import Model.Interp.
 Import ListNotations.
-Open Scope Z_scope.
+Local Open Scope Z_scope.
 
 Inductive keep :=
 | KpMask (m : list bool)
